@@ -302,6 +302,14 @@ template <typename PSET>
 inline void
 Pointset_Powerset<PSET>
 ::difference_assign(const Pointset_Powerset& y) {
+  // Dimension-compatibility check.
+  if (this->space_dimension() != y.space_dimension()) {
+    std::ostringstream s;
+    s << "PPL::Pointset_Powerset<PSET>::difference_assign(y):\n"
+      << "this->space_dimension() == " << this->space_dimension() << ", "
+      << "y.space_dimension() == " << y.space_dimension() << ".";
+    throw std::invalid_argument(s.str());
+  }
   // This code is only used when PSET is an abstraction of NNC_Polyhedron.
   Pointset_Powerset<NNC_Polyhedron> nnc_this(*this);
   Pointset_Powerset<NNC_Polyhedron> nnc_y(y);
